@@ -343,6 +343,163 @@ def api_c_main(i1, i2, i3, is_file):
     return {"dumped": made, "error": err, "reproduced": made != ["a_schema.json", "b_schema.json", "c_schema.json"] or err is not None}
 
 
+# ---- the sdp command on a real (temporary) directory tree: symbolic are the choices, not the bytes ----------
+CLI_NAMES = ["a.sql", "UserOrders.sql", "x_1.hql", "B2.ddl"]
+CLI_MODES = ["sql", "hql", "mysql"]
+CLI_DDL = "CREATE TABLE t (a int, b varchar(10)) STORED AS PARQUET LOCATION 's3://x';\n"
+CLI_DIR = int(os.environ.get("VF_CLI_DIR", 0))
+CLI_NODUMP = int(os.environ.get("VF_CLI_NODUMP", 0))
+
+
+def _tree(root):
+    out = []
+    for d, dirs, files in os.walk(root):
+        for n in dirs + files:
+            out.append(os.path.relpath(os.path.join(d, n), root))
+    return sorted(out)
+
+
+def _cli_fs_case(ni, m1, m2, default_target, is_dir, no_dump):
+    """runs the real cli.main (argparse, os, parse_from_file, the whole parser, dump code) once or twice on a fresh
+    temporary tree; returns (ok, detail)"""
+    import json
+    import shutil
+    import sys
+    import tempfile
+    from simple_ddl_parser import parse_from_file
+    root = tempfile.mkdtemp(prefix="vfcli-")
+    cwd, argv, oldpp = os.getcwd(), sys.argv, cli_mod.pprint.pprint
+    cli_mod.pprint.pprint = lambda *x, **k: None
+    detail = {}
+    try:
+        work, src = os.path.join(root, "work"), os.path.join(root, "src")
+        os.makedirs(work)
+        os.makedirs(src)
+        names = [CLI_NAMES[ni]] if not is_dir else [CLI_NAMES[ni], CLI_NAMES[(ni + 1) % len(CLI_NAMES)], "notes.txt"]
+        for n in names:
+            with open(os.path.join(src, n), "w") as f:
+                f.write(CLI_DDL)
+        os.chdir(work)
+        target = os.path.join(work, "schemas") if default_target else os.path.join(root, "out")
+        path = src if is_dir else os.path.join(src, names[0])
+        before = _tree(root)
+        modes = [CLI_MODES[m1]] + ([CLI_MODES[m2]] if m2 < len(CLI_MODES) else [])
+        for m in modes:
+            sys.argv = ["sdp", path, "-o", m] + ([] if default_target else ["-t", target]) + (["--no-dump"] if no_dump else [])
+            try:
+                cli_mod.main()
+            except SystemExit:
+                pass
+        created = [q for q in _tree(root) if q not in before]
+        detail["argv_modes"], detail["created"] = modes, created
+        if no_dump:
+            return created == [], detail
+        ddl_names = [n for n in names if n != "notes.txt"]
+        trel = os.path.relpath(target, root)
+        want = sorted([trel] + [os.path.join(trel, n.split(".")[0] + "_schema.json") for n in ddl_names])
+        detail["expected_created"] = want
+        ok = created == want
+        for n in ddl_names:
+            fp = os.path.join(target, n.split(".")[0] + "_schema.json")
+            if not os.path.isfile(fp):
+                ok = False
+                continue
+            with open(fp) as f:
+                got = json.load(f)
+            exp = json.loads(json.dumps(parse_from_file(os.path.join(src, n), output_mode=modes[-1])))
+            if got != exp:
+                ok = False
+                detail["content_mismatch"] = {"file": fp[len(root):], "dumped": got, "api_result_for_last_mode": exp}
+        return ok, detail
+    finally:
+        os.chdir(cwd)
+        sys.argv = argv
+        cli_mod.pprint.pprint = oldpp
+        shutil.rmtree(root, ignore_errors=True)
+
+
+def c_cli_fs(ni: int, m1: int, m2: int, default_target: bool) -> bool:
+    """
+    The sdp command (real cli.main on a fresh temporary tree; file or directory mode and --no-dump
+    fixed per process): with --no-dump nothing at all is created - neither in the working
+    directory nor in the target; otherwise exactly `<target>/<base name>_schema.json` per DDL
+    file (base name verbatim, letter case kept), whose JSON content equals what
+    parse_from_file(file, output_mode=<-o of the last invocation>) returns - also when the
+    command is run a second time on the same file and target with another -o.
+
+    pre: 0 <= ni < len(CLI_NAMES)
+    pre: 0 <= m1 < len(CLI_MODES)
+    pre: 0 <= m2 <= len(CLI_MODES)
+    post: _
+    """
+    from crosshair.auditwall import opened_auditwall
+    from crosshair.tracers import NoTracing
+    from crosshair.core import realize
+    ni, m1, m2, default_target = realize(ni), realize(m1), realize(m2), realize(default_target)  # (everything below is I/O)
+    # CrossHair blocks file writes by default; every write of this case goes to a fresh temporary directory that is
+    # removed afterwards, so the wall is opened for its duration
+    with NoTracing(), opened_auditwall():
+        return _cli_fs_case(ni, m1, m2, default_target, bool(CLI_DIR), bool(CLI_NODUMP))[0]
+
+
+def api_c_cli_fs(ni, m1, m2, default_target):
+    ok, detail = _cli_fs_case(ni, m1, m2, default_target, bool(CLI_DIR), bool(CLI_NODUMP))
+    detail.update({"file_names": CLI_NAMES, "directory_mode": bool(CLI_DIR), "no_dump": bool(CLI_NODUMP), "reproduced": not ok})
+    return detail
+
+
+def _nofiles_case(mi, group, json_dump, via_file):
+    import shutil
+    import tempfile
+    from simple_ddl_parser import DDLParser, parse_from_file
+    root = tempfile.mkdtemp(prefix="vfnf-")
+    cwd = os.getcwd()
+    try:
+        work, src = os.path.join(root, "work"), os.path.join(root, "src")
+        os.makedirs(work)
+        os.makedirs(src)
+        fp = os.path.join(src, "In.sql")
+        with open(fp, "w") as f:
+            f.write(CLI_DDL)
+        os.chdir(work)
+        before = _tree(root)
+        kw = {"output_mode": VALID_MODES[mi], "group_by_type": group, "json_dump": json_dump}
+        settings = {"silent": True}
+        if via_file:
+            parse_from_file(fp, parser_settings=settings, **kw)
+        else:
+            DDLParser(CLI_DDL, **settings).run(**kw)
+        created = [q for q in _tree(root) if q not in before]
+        return created == [] and settings == {"silent": True} and kw == {"output_mode": VALID_MODES[mi], "group_by_type": group, "json_dump": json_dump}, {"created": created}
+    finally:
+        os.chdir(cwd)
+        shutil.rmtree(root, ignore_errors=True)
+
+
+def c_nofiles(mi: int, group: bool, json_dump: bool, via_file: bool) -> bool:
+    """
+    C14: without dump=True, run() / parse_from_file() in any output mode, flat or grouped, with
+    or without json_dump, create nothing in the working directory, next to the input file or in
+    the default dump directory, and leave their argument dicts unchanged (real file system, fresh
+    temporary tree; native execution, the solver chooses the case).
+
+    pre: 0 <= mi < 15
+    post: _
+    """
+    from crosshair.auditwall import opened_auditwall
+    from crosshair.core import realize
+    from crosshair.tracers import NoTracing
+    mi, group, json_dump, via_file = realize(mi), realize(group), realize(json_dump), realize(via_file)
+    with NoTracing(), opened_auditwall():
+        return _nofiles_case(mi, group, json_dump, via_file)[0]
+
+
+def api_c_nofiles(mi, group, json_dump, via_file):
+    ok, detail = _nofiles_case(mi, group, json_dump, via_file)
+    detail.update({"output_mode": VALID_MODES[mi], "group_by_type": group, "json_dump": json_dump, "via_parse_from_file": via_file, "reproduced": not ok})
+    return detail
+
+
 def c_dump_file(kind: int, nm: int) -> bool:
     """
     dump_data_to_file writes exactly the JSON encoding of what it is given - a list (flat
